@@ -1,2 +1,640 @@
-/* ds_record.h - TODO */
-static void ds_record_case(vh_rng_t *rng) { (void)rng; vh_inconclusive("not-implemented"); }
+/* ds_record.h - the public DNS record API (ares_dns_record.h) as a container of resource records.
+ *
+ * One record; per section (answer, authority, additional) the model is a vector of entries
+ * {type, name, ttl, unique marker}.  The marker lives where the type allows: the address of an A /
+ * AAAA, the host name of an NS/CNAME/PTR, the string list of a TXT (ares_dns_rr_add_abin /
+ * del_abin), the option list of an OPT/SVCB/HTTPS (ares_dns_rr_set_opt / del_opt_byid).
+ *
+ * Oracle after every operation: rr_cnt of every section equals the model, rr_get(idx) for every
+ * index returns the entry the model has at that index (type, class, ttl, name, marker, string list,
+ * option list in order) and rr_get(cnt) is NULL.  Resource records are addressed by index only; no
+ * rr pointer is kept across operations.
+ */
+
+typedef struct {
+  unsigned short id;
+  unsigned       vid; /* value number: the bytes are "o<vid>" repeated to vlen */
+  unsigned       vlen;
+  int            has_val;
+} dsr_opt_t;
+
+#define DSR_MAXSUB 12
+typedef struct {
+  ares_dns_rec_type_t type;
+  unsigned            marker;
+  unsigned            ttl;
+  int                 nsub;           /* TXT strings or options */
+  unsigned            sub[DSR_MAXSUB]; /* TXT: string numbers */
+  dsr_opt_t           opt[DSR_MAXSUB];
+} dsr_ent_t;
+
+#define DSR_MAXRR 80
+static dsr_ent_t dsr_model[4][DSR_MAXRR + 4]; /* indexed by ares_dns_section_t (1..3) */
+static size_t    dsr_cnt[4];
+static unsigned  dsr_next_marker;
+static const char *dsr_site = "init";
+
+static void dsr_viol(const char *rule, const char *fmt, ...)
+{
+  char    key[96];
+  char    buf[1024];
+  va_list ap;
+  va_start(ap, fmt);
+  vsnprintf(buf, sizeof(buf), fmt, ap);
+  va_end(ap);
+  snprintf(key, sizeof(key), "ds:record:%s:%s", rule, dsr_site);
+  vh_violation(key, "%s", buf);
+}
+
+static const char *dsr_name(unsigned marker)
+{
+  static char b[48];
+  snprintf(b, sizeof(b), "n%u.example.com", marker);
+  return b;
+}
+
+static const char *dsr_host(unsigned marker)
+{
+  static char b[48];
+  snprintf(b, sizeof(b), "h%u.target.example", marker);
+  return b;
+}
+
+static size_t dsr_txt(unsigned num, unsigned char *out)
+{
+  /* length varies with the number; may contain a NUL to make sure lengths are honoured */
+  size_t len = (size_t)snprintf((char *)out, 40, "t%u-%s", num, (num % 3) == 0 ? "abcdefghij" : "x");
+  if ((num % 5) == 0) {
+    out[1] = 0;
+  }
+  return len;
+}
+
+static size_t dsr_optval(const dsr_opt_t *o, unsigned char *out)
+{
+  char   pat[16];
+  size_t pl = (size_t)snprintf(pat, sizeof(pat), "o%u", o->vid), k;
+  for (k = 0; k < o->vlen; k++) {
+    out[k] = (unsigned char)pat[k % pl];
+  }
+  return o->vlen;
+}
+
+static ares_dns_rr_key_t dsr_optkey(ares_dns_rec_type_t t)
+{
+  return t == ARES_REC_TYPE_OPT ? ARES_RR_OPT_OPTIONS : t == ARES_REC_TYPE_SVCB ? ARES_RR_SVCB_PARAMS : ARES_RR_HTTPS_PARAMS;
+}
+
+static int dsr_is_opt_type(ares_dns_rec_type_t t)
+{
+  return t == ARES_REC_TYPE_OPT || t == ARES_REC_TYPE_SVCB || t == ARES_REC_TYPE_HTTPS;
+}
+
+static ares_dns_rr_key_t dsr_hostkey(ares_dns_rec_type_t t)
+{
+  return t == ARES_REC_TYPE_NS ? ARES_RR_NS_NSDNAME : t == ARES_REC_TYPE_CNAME ? ARES_RR_CNAME_CNAME : ARES_RR_PTR_DNAME;
+}
+
+static int dsr_compare_rr(const ares_dns_rr_t *rr, const dsr_ent_t *m, int sect, size_t idx, const char *after)
+{
+  const char *nm = ares_dns_rr_get_name(rr);
+  int         k;
+  if (ares_dns_rr_get_type(rr) != m->type || ares_dns_rr_get_ttl(rr) != m->ttl || ares_dns_rr_get_class(rr) != ARES_CLASS_IN ||
+      nm == NULL || strcmp(nm, dsr_name(m->marker)) != 0) {
+    dsr_viol("order", "after %s: section %d index %zu is type %d ttl %u name '%s', model type %d ttl %u name '%s'", after, sect,
+             idx, (int)ares_dns_rr_get_type(rr), ares_dns_rr_get_ttl(rr), nm ? nm : "(null)", (int)m->type, m->ttl,
+             dsr_name(m->marker));
+    return 0;
+  }
+  switch (m->type) {
+    case ARES_REC_TYPE_A:
+      {
+        const struct in_addr *a = ares_dns_rr_get_addr(rr, ARES_RR_A_ADDR);
+        unsigned              v = 0;
+        if (a != NULL) {
+          memcpy(&v, a, sizeof(v));
+        }
+        if (a == NULL || v != m->marker) {
+          dsr_viol("data", "after %s: section %d index %zu: A address carries marker %u, model %u", after, sect, idx, v, m->marker);
+          return 0;
+        }
+        break;
+      }
+    case ARES_REC_TYPE_AAAA:
+      {
+        const struct ares_in6_addr *a = ares_dns_rr_get_addr6(rr, ARES_RR_AAAA_ADDR);
+        unsigned                    v = 0;
+        if (a != NULL) {
+          memcpy(&v, (const unsigned char *)a + 4, sizeof(v));
+        }
+        if (a == NULL || v != m->marker) {
+          dsr_viol("data", "after %s: section %d index %zu: AAAA address carries marker %u, model %u", after, sect, idx, v,
+                   m->marker);
+          return 0;
+        }
+        break;
+      }
+    case ARES_REC_TYPE_NS:
+    case ARES_REC_TYPE_CNAME:
+    case ARES_REC_TYPE_PTR:
+      {
+        const char *h = ares_dns_rr_get_str(rr, dsr_hostkey(m->type));
+        if (h == NULL || strcmp(h, dsr_host(m->marker)) != 0) {
+          dsr_viol("data", "after %s: section %d index %zu: host '%s', model '%s'", after, sect, idx, h ? h : "(null)",
+                   dsr_host(m->marker));
+          return 0;
+        }
+        break;
+      }
+    case ARES_REC_TYPE_TXT:
+      {
+        unsigned char want[64];
+        unsigned char all[DSR_MAXSUB * 64];
+        size_t        alllen = 0, blen = 0;
+        if (ares_dns_rr_get_abin_cnt(rr, ARES_RR_TXT_DATA) != (size_t)m->nsub) {
+          dsr_viol("abin-count", "after %s: section %d index %zu: TXT holds %zu strings, model %d", after, sect, idx,
+                   ares_dns_rr_get_abin_cnt(rr, ARES_RR_TXT_DATA), m->nsub);
+          return 0;
+        }
+        for (k = 0; k < m->nsub; k++) {
+          size_t               len = 0, wl = dsr_txt(m->sub[k], want);
+          const unsigned char *p   = ares_dns_rr_get_abin(rr, ARES_RR_TXT_DATA, (size_t)k, &len);
+          if (p == NULL || len != wl || memcmp(p, want, wl) != 0 || p[len] != 0) {
+            dsr_viol("abin-order", "after %s: section %d index %zu: TXT string %d differs from model string number %u", after,
+                     sect, idx, k, m->sub[k]);
+            return 0;
+          }
+          memcpy(all + alllen, want, wl);
+          alllen += wl;
+        }
+        if (ares_dns_rr_get_abin(rr, ARES_RR_TXT_DATA, (size_t)m->nsub, &blen) != NULL) {
+          dsr_viol("abin-oob", "after %s: section %d index %zu: get_abin(cnt) is not NULL", after, sect, idx);
+          return 0;
+        }
+        if (m->nsub > 0) {
+          /* documented: get_bin gives all members concatenated */
+          const unsigned char *p = ares_dns_rr_get_bin(rr, ARES_RR_TXT_DATA, &blen);
+          if (p == NULL || blen != alllen || memcmp(p, all, alllen) != 0) {
+            dsr_viol("abin-combined", "after %s: section %d index %zu: get_bin gives %zu bytes, concatenated model %zu", after,
+                     sect, idx, blen, alllen);
+            return 0;
+          }
+        }
+        break;
+      }
+    case ARES_REC_TYPE_OPT:
+    case ARES_REC_TYPE_SVCB:
+    case ARES_REC_TYPE_HTTPS:
+      {
+        ares_dns_rr_key_t key = dsr_optkey(m->type);
+        unsigned char     want[80];
+        if (ares_dns_rr_get_opt_cnt(rr, key) != (size_t)m->nsub) {
+          dsr_viol("opt-count", "after %s: section %d index %zu: %zu options, model %d", after, sect, idx,
+                   ares_dns_rr_get_opt_cnt(rr, key), m->nsub);
+          return 0;
+        }
+        for (k = 0; k < m->nsub; k++) {
+          const unsigned char *v  = (const unsigned char *)"";
+          size_t               vl = 99, wl = m->opt[k].has_val ? dsr_optval(&m->opt[k], want) : 0;
+          unsigned short       id = ares_dns_rr_get_opt(rr, key, (size_t)k, &v, &vl);
+          const unsigned char *v2 = NULL;
+          size_t               vl2 = 99;
+          if (id != m->opt[k].id || vl != wl || (wl && (v == NULL || memcmp(v, want, wl) != 0))) {
+            dsr_viol("opt-order", "after %s: section %d index %zu: option %d is id %u len %zu, model id %u len %zu", after, sect,
+                     idx, k, id, vl, m->opt[k].id, wl);
+            return 0;
+          }
+          if (!ares_dns_rr_get_opt_byid(rr, key, m->opt[k].id, &v2, &vl2) || vl2 != wl || (wl && memcmp(v2, want, wl) != 0)) {
+            dsr_viol("opt-byid", "after %s: section %d index %zu: get_opt_byid(%u) disagrees with the model", after, sect, idx,
+                     m->opt[k].id);
+            return 0;
+          }
+        }
+        if (ares_dns_rr_get_opt(rr, key, (size_t)m->nsub, NULL, NULL) != 65535) {
+          dsr_viol("opt-oob", "after %s: section %d index %zu: get_opt(cnt) is not the 65535 sentinel", after, sect, idx);
+          return 0;
+        }
+        break;
+      }
+    default:
+      break;
+  }
+  return 1;
+}
+
+static int dsr_compare(ares_dns_record_t *rec, const char *after)
+{
+  int sect;
+  for (sect = ARES_SECTION_ANSWER; sect <= ARES_SECTION_ADDITIONAL; sect++) {
+    size_t i;
+    size_t cnt = ares_dns_record_rr_cnt(rec, (ares_dns_section_t)sect);
+    if (cnt != dsr_cnt[sect]) {
+      dsr_viol("count", "after %s: section %d has %zu records, model %zu", after, sect, cnt, dsr_cnt[sect]);
+      return 0;
+    }
+    for (i = 0; i < cnt; i++) {
+      const ares_dns_rr_t *rr = (i & 1) ? ares_dns_record_rr_get_const(rec, (ares_dns_section_t)sect, i)
+                                        : ares_dns_record_rr_get(rec, (ares_dns_section_t)sect, i);
+      if (rr == NULL) {
+        dsr_viol("get", "after %s: rr_get(section %d, %zu) is NULL with %zu records", after, sect, i, cnt);
+        return 0;
+      }
+      if (!dsr_compare_rr(rr, &dsr_model[sect][i], sect, i, after)) {
+        return 0;
+      }
+    }
+    if (ares_dns_record_rr_get(rec, (ares_dns_section_t)sect, cnt) != NULL) {
+      dsr_viol("get-oob", "after %s: rr_get(section %d, cnt) is not NULL", after, sect);
+      return 0;
+    }
+  }
+  vh_count("record_full_compare");
+  return 1;
+}
+
+/* add one record of a random type at the end of a section, fill in its marker */
+static int dsr_add(ares_dns_record_t *rec, vh_rng_t *rng, int sect, const char *what)
+{
+  static const ares_dns_rec_type_t types[] = { ARES_REC_TYPE_A,   ARES_REC_TYPE_A,     ARES_REC_TYPE_AAAA, ARES_REC_TYPE_TXT,
+                                               ARES_REC_TYPE_TXT, ARES_REC_TYPE_NS,    ARES_REC_TYPE_CNAME, ARES_REC_TYPE_PTR,
+                                               ARES_REC_TYPE_OPT, ARES_REC_TYPE_SVCB, ARES_REC_TYPE_HTTPS };
+  dsr_ent_t                       *m       = &dsr_model[sect][dsr_cnt[sect]];
+  ares_dns_rr_t                   *rr      = NULL;
+  ares_status_t                    st;
+
+  memset(m, 0, sizeof(*m));
+  m->type   = types[vh_below(rng, sizeof(types) / sizeof(types[0]))];
+  m->marker = dsr_next_marker++;
+  m->ttl    = (unsigned)vh_below(rng, 100000);
+  st        = ares_dns_record_rr_add(&rr, rec, (ares_dns_section_t)sect, dsr_name(m->marker), m->type, ARES_CLASS_IN, m->ttl);
+  if (st == ARES_ENOMEM) {
+    return -1;
+  }
+  if (st != ARES_SUCCESS || rr == NULL) {
+    dsr_viol("add-rejected", "%s: rr_add(section %d, type %d) with %zu records present returned %d", what, sect, (int)m->type,
+             dsr_cnt[sect], (int)st);
+    return 0;
+  }
+  dsr_cnt[sect]++;
+  vh_count("record_rr_add");
+  switch (m->type) {
+    case ARES_REC_TYPE_A:
+      {
+        struct in_addr a;
+        memcpy(&a, &m->marker, sizeof(a));
+        st = ares_dns_rr_set_addr(rr, ARES_RR_A_ADDR, &a);
+        break;
+      }
+    case ARES_REC_TYPE_AAAA:
+      {
+        struct ares_in6_addr a;
+        memset(&a, 0x20, sizeof(a));
+        memcpy((unsigned char *)&a + 4, &m->marker, sizeof(m->marker));
+        st = ares_dns_rr_set_addr6(rr, ARES_RR_AAAA_ADDR, &a);
+        break;
+      }
+    case ARES_REC_TYPE_NS:
+    case ARES_REC_TYPE_CNAME:
+    case ARES_REC_TYPE_PTR:
+      st = ares_dns_rr_set_str(rr, dsr_hostkey(m->type), dsr_host(m->marker));
+      break;
+    default:
+      st = ARES_SUCCESS; /* lists start empty */
+      break;
+  }
+  if (st == ARES_ENOMEM) {
+    return -1;
+  }
+  if (st != ARES_SUCCESS) {
+    dsr_viol("set-rejected", "%s: setting the data of a new type %d record returned %d", what, (int)m->type, (int)st);
+    return 0;
+  }
+  return 1;
+}
+
+static void dsr_model_del(int sect, size_t idx)
+{
+  memmove(&dsr_model[sect][idx], &dsr_model[sect][idx + 1], (dsr_cnt[sect] - idx - 1) * sizeof(dsr_ent_t));
+  dsr_cnt[sect]--;
+}
+
+/* pick a record whose type satisfies pred; returns 0 if none */
+static int dsr_pick(vh_rng_t *rng, int want_opt, int *sect, size_t *idx)
+{
+  int    s, tries;
+  size_t i;
+  for (tries = 0; tries < 12; tries++) {
+    s = vh_range(rng, ARES_SECTION_ANSWER, ARES_SECTION_ADDITIONAL);
+    if (dsr_cnt[s] == 0) {
+      continue;
+    }
+    i = vh_below(rng, (uint32_t)dsr_cnt[s]);
+    if (want_opt ? dsr_is_opt_type(dsr_model[s][i].type) : dsr_model[s][i].type == ARES_REC_TYPE_TXT) {
+      *sect = s;
+      *idx  = i;
+      return 1;
+    }
+  }
+  for (s = ARES_SECTION_ANSWER; s <= ARES_SECTION_ADDITIONAL; s++) {
+    for (i = 0; i < dsr_cnt[s]; i++) {
+      if (want_opt ? dsr_is_opt_type(dsr_model[s][i].type) : dsr_model[s][i].type == ARES_REC_TYPE_TXT) {
+        *sect = s;
+        *idx  = i;
+        return 1;
+      }
+    }
+  }
+  return 0;
+}
+
+enum {
+  DSR_ADD = 1,
+  DSR_DEL,
+  DSR_DEL_FIRST,
+  DSR_DEL_LAST,
+  DSR_DEL_BAD,
+  DSR_DEL_FRONT_BURST,
+  DSR_ABIN_ADD,
+  DSR_ABIN_DEL,
+  DSR_OPT_SET,
+  DSR_OPT_DEL,
+  DSR_ADD_BURST,
+  DSR_DESTROY
+};
+
+static const char *const dsr_opname[] = { "?",        "rr_add",   "rr_del",  "rr_del_first",   "rr_del_last", "rr_del_bad_index",
+                                          "rr_del_front_burst", "add_abin", "del_abin", "set_opt", "del_opt_byid",
+                                          "rr_add_burst",       "destroy" };
+
+static void ds_record_case(vh_rng_t *rng)
+{
+  ares_dns_record_t *rec  = NULL;
+  int                nops = vh_chance(rng, 1, 8) ? vh_range(rng, 120, 500) : vh_range(rng, 6, 90);
+  int                bias = vh_range(rng, 0, 2); /* 0 balanced, 1 queue (add at end, delete at front), 2 list-edit heavy */
+  int                i;
+  char               what[96];
+  vh_sb_t            sb = { 0 };
+
+  memset(dsr_cnt, 0, sizeof(dsr_cnt));
+  dsr_next_marker = 1;
+  dsr_site        = "init";
+  if (ares_dns_record_create(&rec, (unsigned short)vh_below(rng, 65536), 0, ARES_OPCODE_QUERY, ARES_RCODE_NOERROR) !=
+        ARES_SUCCESS ||
+      rec == NULL) {
+    vh_inconclusive("oom");
+    return;
+  }
+  if (vh_want_sample()) {
+    vh_sb_printf(&sb, "{\"container\":\"record\",\"bias\":%d,\"ops\":[", bias);
+  }
+
+  for (i = 0; i < nops && !vh_case_viol; i++) {
+    int           op;
+    int           r = vh_range(rng, 0, 99);
+    int           sect = vh_range(rng, ARES_SECTION_ANSWER, ARES_SECTION_ADDITIONAL);
+    size_t        idx  = 0;
+    ares_status_t st;
+    int           rc;
+
+    if (r < 38) {
+      op = DSR_ADD;
+    } else if (r < 62) {
+      static const int dl[] = { DSR_DEL, DSR_DEL, DSR_DEL_FIRST, DSR_DEL_LAST, DSR_DEL_BAD };
+      op                    = dl[vh_below(rng, 5)];
+      if (bias == 1 && vh_chance(rng, 2, 3)) {
+        op = DSR_DEL_FIRST;
+      }
+    } else if (r < 67) {
+      op = DSR_DEL_FRONT_BURST;
+    } else if (r < 73) {
+      op = DSR_ADD_BURST;
+    } else {
+      static const int ed[] = { DSR_ABIN_ADD, DSR_ABIN_ADD, DSR_ABIN_DEL, DSR_ABIN_DEL, DSR_OPT_SET,
+                                DSR_OPT_SET,  DSR_OPT_SET,  DSR_OPT_DEL,  DSR_OPT_DEL };
+      op                    = ed[vh_below(rng, 9)];
+      if (bias != 2 && vh_chance(rng, 1, 3)) {
+        op = DSR_ADD;
+      }
+    }
+    if ((op == DSR_ADD || op == DSR_ADD_BURST) && dsr_cnt[sect] >= DSR_MAXRR - 12) {
+      op = DSR_DEL_FRONT_BURST;
+    }
+    OP(op);
+    dsr_site = dsr_opname[op];
+    if (sb.b && i < 40) {
+      vh_sb_printf(&sb, "%s%d", i ? "," : "", op);
+    }
+    snprintf(what, sizeof(what), "op#%d %s sect=%d counts=%zu/%zu/%zu", i, dsr_opname[op], sect, dsr_cnt[1], dsr_cnt[2],
+             dsr_cnt[3]);
+
+    switch (op) {
+      case DSR_ADD:
+      case DSR_ADD_BURST:
+        {
+          int n = op == DSR_ADD ? 1 : vh_range(rng, 3, 10);
+          while (n-- > 0 && !vh_case_viol) {
+            rc = dsr_add(rec, rng, sect, what);
+            if (rc < 0) {
+              vh_inconclusive("oom");
+              goto teardown;
+            }
+          }
+          break;
+        }
+      case DSR_DEL:
+      case DSR_DEL_FIRST:
+      case DSR_DEL_LAST:
+        if (dsr_cnt[sect] == 0) {
+          if (ares_dns_record_rr_del(rec, (ares_dns_section_t)sect, 0) == ARES_SUCCESS) {
+            dsr_viol("del-bad-accepted", "%s: rr_del on an empty section succeeded", what);
+          }
+          break;
+        }
+        idx = op == DSR_DEL_FIRST ? 0 : op == DSR_DEL_LAST ? dsr_cnt[sect] - 1 : vh_below(rng, (uint32_t)dsr_cnt[sect]);
+        st  = ares_dns_record_rr_del(rec, (ares_dns_section_t)sect, idx);
+        if (st != ARES_SUCCESS) {
+          dsr_viol("del-rejected", "%s: rr_del(section %d, %zu) with %zu records returned %d", what, sect, idx, dsr_cnt[sect],
+                   (int)st);
+          break;
+        }
+        dsr_model_del(sect, idx);
+        ds_removals++;
+        vh_count("record_rr_del");
+        break;
+      case DSR_DEL_BAD:
+        idx = dsr_cnt[sect] + vh_below(rng, 4);
+        if (ares_dns_record_rr_del(rec, (ares_dns_section_t)sect, idx) == ARES_SUCCESS) {
+          dsr_viol("del-bad-accepted", "%s: rr_del(section %d, %zu) beyond the %zu records succeeded", what, sect, idx,
+                   dsr_cnt[sect]);
+        }
+        break;
+      case DSR_DEL_FRONT_BURST:
+        {
+          /* delete four or more from the front (all of them half of the time), then add straight away */
+          size_t n = dsr_cnt[sect] < 4 || vh_chance(rng, 1, 3) ? dsr_cnt[sect] : 4 + vh_below(rng, (uint32_t)(dsr_cnt[sect] - 3));
+          size_t k;
+          for (k = 0; k < n && !vh_case_viol; k++) {
+            st = ares_dns_record_rr_del(rec, (ares_dns_section_t)sect, 0);
+            if (st != ARES_SUCCESS) {
+              dsr_viol("del-rejected", "%s: rr_del(section %d, 0) with %zu records returned %d", what, sect, dsr_cnt[sect], (int)st);
+              break;
+            }
+            dsr_model_del(sect, 0);
+            ds_removals++;
+            vh_count("record_rr_del");
+          }
+          if (!vh_case_viol && !dsr_compare(rec, what)) {
+            break;
+          }
+          for (k = vh_range(rng, 1, 6); k > 0 && !vh_case_viol; k--) {
+            rc = dsr_add(rec, rng, sect, what);
+            if (rc < 0) {
+              vh_inconclusive("oom");
+              goto teardown;
+            }
+          }
+          vh_count("record_delete_then_add");
+          break;
+        }
+      case DSR_ABIN_ADD:
+      case DSR_ABIN_DEL:
+        {
+          ares_dns_rr_t *rr;
+          dsr_ent_t     *m;
+          unsigned char  data[64];
+          if (!dsr_pick(rng, 0, &sect, &idx)) {
+            break;
+          }
+          m  = &dsr_model[sect][idx];
+          rr = ares_dns_record_rr_get(rec, (ares_dns_section_t)sect, idx);
+          if (rr == NULL) {
+            dsr_viol("get", "%s: rr_get(section %d, %zu) is NULL", what, sect, idx);
+            break;
+          }
+          if (op == DSR_ABIN_ADD) {
+            unsigned num;
+            size_t   len;
+            if (m->nsub >= DSR_MAXSUB) {
+              break;
+            }
+            num = dsr_next_marker++;
+            len = dsr_txt(num, data);
+            st  = ares_dns_rr_add_abin(rr, ARES_RR_TXT_DATA, data, len);
+            if (st == ARES_ENOMEM) {
+              break;
+            }
+            if (st != ARES_SUCCESS) {
+              dsr_viol("abin-rejected", "%s: add_abin on a TXT with %d strings returned %d", what, m->nsub, (int)st);
+              break;
+            }
+            m->sub[m->nsub++] = num;
+            vh_count("record_abin_add");
+          } else {
+            size_t at = m->nsub ? vh_below(rng, (uint32_t)m->nsub + 1) : 0;
+            st        = ares_dns_rr_del_abin(rr, ARES_RR_TXT_DATA, at);
+            if (at >= (size_t)m->nsub) {
+              if (st == ARES_SUCCESS) {
+                dsr_viol("abin-bad-accepted", "%s: del_abin(%zu) on a TXT with %d strings succeeded", what, at, m->nsub);
+              }
+              break;
+            }
+            if (st != ARES_SUCCESS) {
+              dsr_viol("abin-rejected", "%s: del_abin(%zu) on a TXT with %d strings returned %d", what, at, m->nsub, (int)st);
+              break;
+            }
+            memmove(&m->sub[at], &m->sub[at + 1], ((size_t)m->nsub - at - 1) * sizeof(m->sub[0]));
+            m->nsub--;
+            ds_removals++;
+            vh_count("record_abin_del");
+          }
+          break;
+        }
+      case DSR_OPT_SET:
+      case DSR_OPT_DEL:
+        {
+          ares_dns_rr_t    *rr;
+          dsr_ent_t        *m;
+          ares_dns_rr_key_t key;
+          unsigned char     data[80];
+          unsigned short    id;
+          int               k, at = -1;
+          if (!dsr_pick(rng, 1, &sect, &idx)) {
+            break;
+          }
+          m   = &dsr_model[sect][idx];
+          key = dsr_optkey(m->type);
+          rr  = ares_dns_record_rr_get(rec, (ares_dns_section_t)sect, idx);
+          if (rr == NULL) {
+            dsr_viol("get", "%s: rr_get(section %d, %zu) is NULL", what, sect, idx);
+            break;
+          }
+          /* small id space so that replacing an existing option is common */
+          id = (unsigned short)(m->nsub && vh_chance(rng, 1, 2) ? m->opt[vh_below(rng, (uint32_t)m->nsub)].id : vh_below(rng, 24));
+          for (k = 0; k < m->nsub; k++) {
+            if (m->opt[k].id == id) {
+              at = k;
+            }
+          }
+          if (op == DSR_OPT_SET) {
+            dsr_opt_t o;
+            if (at < 0 && m->nsub >= DSR_MAXSUB) {
+              break;
+            }
+            o.id      = id;
+            o.vid     = dsr_next_marker++;
+            o.has_val = !vh_chance(rng, 1, 6);
+            o.vlen    = o.has_val ? (unsigned)vh_below(rng, 60) : 0;
+            dsr_optval(&o, data);
+            st = ares_dns_rr_set_opt(rr, key, id, o.has_val ? data : NULL, o.vlen);
+            if (st == ARES_ENOMEM) {
+              break;
+            }
+            if (st != ARES_SUCCESS) {
+              dsr_viol("opt-rejected", "%s: set_opt(id %u) on a record with %d options returned %d", what, id, m->nsub, (int)st);
+              break;
+            }
+            if (at >= 0) {
+              m->opt[at] = o; /* same id: value replaced in place */
+              vh_count("record_opt_replace");
+            } else {
+              m->opt[m->nsub++] = o;
+              vh_count("record_opt_add");
+            }
+          } else {
+            st = ares_dns_rr_del_opt_byid(rr, key, id);
+            if (at < 0) {
+              /* absent id: reported as not found (or as nothing to do when the record has no option
+               * list at all); either way nothing may change */
+              if (st == ARES_SUCCESS && m->nsub > 0) {
+                dsr_viol("opt-bad-accepted", "%s: del_opt_byid(%u) of an absent option succeeded", what, id);
+              }
+              break;
+            }
+            if (st != ARES_SUCCESS) {
+              dsr_viol("opt-rejected", "%s: del_opt_byid(%u) of a present option returned %d", what, id, (int)st);
+              break;
+            }
+            memmove(&m->opt[at], &m->opt[at + 1], ((size_t)m->nsub - (size_t)at - 1) * sizeof(m->opt[0]));
+            m->nsub--;
+            ds_removals++;
+            vh_count("record_opt_del");
+          }
+          break;
+        }
+      default:
+        break;
+    }
+    if (!vh_case_viol) {
+      dsr_compare(rec, what);
+    }
+  }
+
+teardown:
+  OP(DSR_DESTROY);
+  ares_dns_record_destroy(rec);
+  if (sb.b) {
+    vh_sb_printf(&sb, "],\"nops\":%d,\"final\":[%zu,%zu,%zu]}", ds_nops, dsr_cnt[1], dsr_cnt[2], dsr_cnt[3]);
+    vh_sample(sb.b);
+    free(sb.b);
+  }
+}
